@@ -1,11 +1,26 @@
 import RbV.Spec.Containers
 import RbV.Model.BitEnc
+import RbV.Model.SmallInts
+import RbV.Model.Fenwick
+import RbV.Lemmas.BitEnc
+import RbV.Lemmas.SmallInts
+import RbV.Lemmas.Fenwick
 /-!
-# C18 — bit-packed containers behave like plain vectors
-(being filled in)
+# C18 — bit-packed containers behave exactly like plain vectors
+
+Statements only; proofs are in `RbV/Lemmas/{BitEncBits,BitEnc,SmallInts,Fenwick}.lean`.
+
+The oracle of the correspondence run is the *specification* (`RbV.Spec.*`: a plain list).  The theorems below say
+that the mirror models in `RbV/Model/` — which follow `bitenc.rs` (with the `push_values` correction of /repo
+commit 48b7982), `smallints.rs` and `bit_tree.rs` statement by statement — are observationally that plain list,
+for every width, every operation and **every operation history** (no bound on the length or the values).
 -/
 namespace RbV.Thm.C18
-open RbV.Spec.BitEnc
+open RbV.Spec
+
+/-! ## BitEnc -/
+section bitenc
+open RbV.Spec.BitEnc RbV.Model.BitEnc RbV.Lemmas.BitEnc
 
 /-- the specified block count is the least number of blocks that hold `len` values -/
 theorem specBlocks_least (w len : Nat) (hw : 1 ≤ w ∧ w ≤ 8) :
@@ -25,5 +40,128 @@ theorem specBlocks_least (w len : Nat) (hw : 1 ≤ w ∧ w ≤ 8) :
       have : ((len + p - 1) / p - 1) * p = (len + p - 1) / p * p - p := by
         rw [Nat.sub_mul, Nat.one_mul]
       omega
+
+/-- **one step**: if the model state `s` represents the vector `l` (`Abs`: same length, every in-range read
+returns the element, block count = ⌈len / ⌊32/w⌋⌉), then after *any* operation — `push`, `push_values`
+(fill-up / whole blocks / partial block), `set` (even out of range), `get`, `iter`, `clear` — the new model state
+represents `specStep l op`.  This is `abs (step s op) = specStep (abs s) op`. -/
+theorem bitenc_step_commutes (w : Nat) (hw : 1 ≤ w ∧ w ≤ 8) (s : St) (l : List Nat) (op : Op)
+    (h : Abs w s l) : Abs w (step w s op) (specStep w l op) :=
+  abs_step w s l op hw h
+
+/-- the abstraction is a function of the state: the represented vector is what iteration yields -/
+theorem bitenc_abs_is_iter (w : Nat) (hw : 1 ≤ w ∧ w ≤ 8) (s : St) (l : List Nat) (h : Abs w s l) :
+    toList w s = l :=
+  toList_of_abs w s l hw h
+
+/-- **every history** from `BitEnc::new(w)`: iteration yields the spec vector, the length agrees, every read
+(in range or not) agrees — out-of-range reads are `none` — and the block count is ⌈len / ⌊32/w⌋⌉ -/
+theorem bitenc_refines (w : Nat) (hw : 1 ≤ w ∧ w ≤ 8) (ops : List Op) :
+    toList w (ops.foldl (step w) new) = ops.foldl (specStep w) [] ∧
+    (ops.foldl (step w) new).len = (ops.foldl (specStep w) []).length ∧
+    (∀ i, get w (ops.foldl (step w) new) i = (ops.foldl (specStep w) [])[i]?) ∧
+    nrBlocks (ops.foldl (step w) new)
+      = ((ops.foldl (step w) new).len + 32 / w - 1) / (32 / w) := by
+  have h := abs_run w hw ops new [] (abs_new w hw)
+  refine ⟨toList_of_abs w _ _ hw h, h.1.1, fun i => get_of_abs w _ _ i hw h, ?_⟩
+  have := h.2
+  simpa [specBlocks, perBlock, nrBlocks] using this
+
+/-- every block of the model stays a 32-bit word in every history (the `u32` storage of the Rust code is modelled
+with explicit `% 2^32`; nothing ever needs a 33rd bit) -/
+theorem bitenc_blocks_u32 (w : Nat) (hw : 1 ≤ w ∧ w ≤ 8) (ops : List Op) :
+    ∀ x ∈ (ops.foldl (step w) new).storage, x < 2 ^ 32 :=
+  wf_run w hw ops new (by intro x hx; simp [new] at hx)
+
+/-- the spec vector holds width-masked values only -/
+theorem bitenc_spec_masked (w : Nat) (ops : List Op) :
+    ∀ x ∈ ops.foldl (specStep w) [], x < 2 ^ w := by
+  have hpos : 0 < 2 ^ w := Nat.two_pow_pos w
+  suffices H : ∀ (l : List Nat), (∀ x ∈ l, x < 2 ^ w) → ∀ x ∈ ops.foldl (specStep w) l, x < 2 ^ w from
+    H [] (by simp)
+  induction ops with
+  | nil => intro l hl; exact hl
+  | cons op ops ih =>
+    intro l hl
+    apply ih
+    cases op with
+    | push v =>
+      intro x hx
+      simp only [specStep, List.mem_append, List.mem_singleton] at hx
+      rcases hx with hx | rfl
+      · exact hl x hx
+      · exact Nat.mod_lt _ hpos
+    | pushValues n v =>
+      intro x hx
+      simp only [specStep, List.mem_append, List.mem_replicate] at hx
+      rcases hx with hx | ⟨_, rfl⟩
+      · exact hl x hx
+      · exact Nat.mod_lt _ hpos
+    | set i v =>
+      intro x hx
+      simp only [specStep] at hx
+      rcases List.mem_or_eq_of_mem_set hx with hx | rfl
+      · exact hl x hx
+      · exact Nat.mod_lt _ hpos
+    | get i => exact hl
+    | iter => exact hl
+    | clear => intro x hx; simp [specStep] at hx
+
+-- non-vacuity: width 3 (10 values per block, 2 unused bits), a history that fills a block with `push_values`,
+-- overruns it by one, writes an unmasked value and reads beyond the end
+example : toList 3 ([Op.pushValues 9 1, .pushValues 2 13, .push 255, .set 0 8, .pushValues 12 6].foldl (step 3) new)
+    = [0, 1, 1, 1, 1, 1, 1, 1, 1, 5, 5, 7, 6, 6, 6, 6, 6, 6, 6, 6, 6, 6, 6, 6] := by decide
+example : nrBlocks ([Op.pushValues 9 1, .pushValues 2 13].foldl (step 3) new) = 2 := by decide
+example : get 3 ([Op.pushValues 9 1, .pushValues 2 13].foldl (step 3) new) 11 = none := by decide
+
+end bitenc
+
+/-! ## SmallInts -/
+section smallints
+open RbV.Spec.SmallInts RbV.Model.SmallInts RbV.Lemmas.SmallInts
+
+/-- every history from `SmallInts::new()` (any small range `[lo, hi]`, `hi = S::max_value()`): same length, every
+read agrees with the plain `List Int` (reads beyond the end are `none`), iteration / `decompress` yield it -/
+theorem smallints_refines (lo hi : Int) (ops : List Op) :
+    (ops.foldl (step lo hi) new).small.length = (ops.foldl specStep []).length ∧
+    (∀ i, get hi (ops.foldl (step lo hi) new) i = (ops.foldl specStep [])[i]?) ∧
+    toList hi (ops.foldl (step lo hi) new) = ops.foldl specStep [] := by
+  have h := run_from_new lo hi ops
+  exact ⟨h.1, h.2, toList_of_abs hi _ _ h⟩
+
+/-- … and from `SmallInts::from_elem(v, n)` (whose assertion guarantees `v < S::max_value()`) -/
+theorem smallints_refines_from_elem (lo hi v : Int) (n : Nat) (hv : v < hi) (ops : List Op) :
+    (ops.foldl (step lo hi) (fromElem v n)).small.length = (ops.foldl specStep (specFromElem v n)).length ∧
+    (∀ i, get hi (ops.foldl (step lo hi) (fromElem v n)) i = (ops.foldl specStep (specFromElem v n))[i]?) ∧
+    toList hi (ops.foldl (step lo hi) (fromElem v n)) = ops.foldl specStep (specFromElem v n) := by
+  have h := run_from_elem lo hi v n hv ops
+  exact ⟨h.1, h.2, toList_of_abs hi _ _ h⟩
+
+-- non-vacuity: i8 range, values below / at / above the maximum, negative, overwritten big → small → big
+example : toList 127 ([Op.push 126, .push 127, .push 128, .push (-129), .set 1 5, .set 0 1000, .set 0 (-7), .set 2 127].foldl
+    (step (-128) 127) new) = [-7, 5, 127, -129] := by decide
+
+end smallints
+
+/-! ## Fenwick trees -/
+section fenwick
+open RbV.Spec.Fenwick RbV.Model.Fenwick RbV.Lemmas.Fenwick
+
+/-- `SumBitTree`: after any sequence of updates, `get(i)` is the sum of all updates at indices `≤ i` -/
+theorem fenwick_sum_correct (n : Nat) (ups : List (Nat × Int)) (hups : ∀ u ∈ ups, u.1 < n) (i : Nat) (hi : i < n) :
+    get (· + ·) 0 (runSum n ups) i = prefixSum ups i :=
+  sum_correct n ups hups i hi
+
+/-- `MaxBitTree` (naturals, default 0): `get(i)` is the maximum of all updates at indices `≤ i` -/
+theorem fenwick_max_correct (n : Nat) (ups : List (Nat × Nat)) (hups : ∀ u ∈ ups, u.1 < n) (i : Nat) (hi : i < n) :
+    get max 0 (runMax n ups) i = prefixMax ups i :=
+  max_correct n ups hups i hi
+
+example : get (· + ·) 0 (runSum 8 [(0, 5), (7, -3), (3, 10)]) 3 = 15 := by
+  rw [fenwick_sum_correct 8 _ (by decide) 3 (by decide)]; decide
+example : get max 0 (runMax 9 [(8, 5), (0, 2), (4, 9)]) 4 = 9 := by
+  rw [fenwick_max_correct 9 _ (by decide) 4 (by decide)]; decide
+
+end fenwick
 
 end RbV.Thm.C18
